@@ -478,7 +478,7 @@ namespace raptor
                 // Iterate until convergence or max iterations
                 ParVector resid(rhs.global_n, rhs.local_n);
                 levels[0]->A->residual(sol, rhs, resid);
-                if (fabs(b_norm) > zero_tol)
+                if (b_norm > 0.0)
                 {
                     r_norm = resid.norm(2) / b_norm;
                 }
@@ -513,7 +513,7 @@ namespace raptor
 
                     iter++;
                     levels[0]->A->residual(sol, rhs, resid);
-                    if (fabs(b_norm) > zero_tol)
+                    if (b_norm > 0.0)
                     {
                         r_norm = resid.norm(2) / b_norm;
                     }
